@@ -412,6 +412,22 @@ impl BoundsAnalyzer {
         }
     }
 
+    /// The rewrites may only rely on ranges that the emitted domain enforces.
+    /// Boolean variables keep their type and integer variables keep or round
+    /// theirs, so their inferred box is reset to what the domain states.
+    pub(crate) fn sync_with_domain(&mut self, domain: &IndexMap<String, DomainVariable>) {
+        for (name, variable) in domain {
+            let variable_type = variable.get_type();
+            if matches!(
+                variable_type,
+                VariableType::Boolean | VariableType::IntegerRange(_, _)
+            ) {
+                self.variable_bounds
+                    .insert(name.clone(), Bounds::from_variable_type(variable_type));
+            }
+        }
+    }
+
     fn propagate_affine_constraints(&mut self, constraints: &[Constraint], max_steps: usize) {
         let forms = constraints
             .iter()
